@@ -193,7 +193,7 @@ func (e *Engine) frameFormula(fc *fnCtx, n string, st *State) (string, bool) {
 	for _, r := range refs {
 		conds = append(conds, "(not (= r "+r+"))")
 	}
-	return "(forall ((r Int)) (! (=> " + and(conds...) + " (= (select " + h1 + " r) (select " + h0 + " r))) :pattern ((select " + h1 + " r))))", true
+	return "(forall ((r Int)) (! (=> " + and(conds...) + " (= (select " + h1 + " r) (select " + h0 + " r))) :pattern ((select " + h0 + " r))))", true
 }
 
 func (e *Engine) frameObligations(fc *fnCtx, c *Contract, params []Val, entry, exit *State) {
